@@ -31,3 +31,7 @@ Proof. split; reflexivity. Qed.
 (* commit / abort / cleanup_timeouts release by transaction id and drop the transaction from the graph *)
 Lemma gen_finish_spec : gen_finish_releases = true /\ gen_finish_unwaits = true.
 Proof. split; reflexivity. Qed.
+
+(* the detection round reads the recorded wait-for relations and changes none of them *)
+Lemma gen_detect_spec : gen_detect_observes = true.
+Proof. reflexivity. Qed.
